@@ -163,7 +163,7 @@ def run_case(case):
 
     starts = []
     for p in paths:
-        out = hexlib.fmt_traverse(lambda: trie.traverse(p))
+        out = hexlib.fmt_traverse(lambda: trie.traverse(common.vary(p, True)))
         res.emit("hx.trav 0 %s" % nibstr(p), out)
         # raw level: annotate_node / _make_simulated_node / _traverse_from over raw nodes from the database
         res.emit("hx.travd %s %s" % (hx(trie.root_hash), nibstr(p)), out)
@@ -200,7 +200,7 @@ def run_case(case):
         res.emit("hx.reg 0 %s" % nibstr(p), str(reg))
         for s in sorted(segs)[:10]:
             before = db.reads
-            out = hexlib.fmt_traverse(lambda: trie.traverse_from(node, s))
+            out = hexlib.fmt_traverse(lambda: trie.traverse_from(node, common.vary(s, True)))
             reads = db.reads - before
             res.emit("hx.travfrom 0 %d %s" % (reg, nibstr(s)), out)
             res.tags.add("from-" + ("simulated" if simulated else "real"))
